@@ -37,7 +37,9 @@ UNITS = {
     "mixed": {"hours": 1, "minutes": 30, "seconds": 15, "milliseconds": 250},
     "default": None,        # no timeout given: the documented default of 12 hours
     "plural-seconds": {"seconds": 7},   # created through /start-instances
+    "day+hour": {"days": 1, "hours": 1},
 }
+TOKEN = "c17-t0ken"
 
 
 def td(unit):
@@ -47,7 +49,7 @@ def td(unit):
 
 
 class Impl:
-    def __init__(self, with_adapter):
+    def __init__(self, with_adapter, token=None):
         self.clock = srv.VClock().install()
         self.destroyed = {}
         self.objs = []
@@ -75,7 +77,9 @@ class Impl:
             shutil.rmtree(self.dir, ignore_errors=True)
             os.makedirs(self.dir)
             adapter = FileAdapter(False, self.dir)
-        self.app, self.client = srv.make_server(factory, adapter=adapter)
+        self.app, self.client = srv.make_server(factory, adapter=adapter, token=token)
+        if token:
+            self.client.environ_base["HTTP_AUTHORIZATION"] = "Bearer " + token      # the harness's own requests carry the token
         self.ids = []          # alias index -> uuid
         self.keys = {}         # uuid -> key of the bptk object currently serving it
 
@@ -92,13 +96,14 @@ class Ref:
 
 
 class System:
-    def __init__(self, with_adapter, units, precreated=False):
+    def __init__(self, with_adapter, units, precreated=False, token=False):
         self.with_adapter = with_adapter
         self.units = units          # unit of the first / second instance
         self.precreated = precreated   # the search starts from the state in which all instances exist already (a non-initial root)
+        self.token = token          # the server demands a bearer token (the harness sends it; "unauth" events do not)
 
     def new(self):
-        impl, ref = Impl(self.with_adapter), Ref()
+        impl, ref = Impl(self.with_adapter, TOKEN if self.token else None), Ref()
         if self.precreated:
             for u in self.units:
                 self.apply(impl, ref, ["create", u])
@@ -115,6 +120,9 @@ class System:
             ops.append(["begin", a])
             ops.append(["results", a])
             ops.append(["keepalive", a])
+            if self.token:
+                ops.append(["unauth", a, "keep-alive"])
+                ops.append(["unauth", a, "session-results"])
             for kind in ("eps", "half", "T-eps", "T", "T+eps"):
                 ops.append(["advance", a, kind])
         ops.append(["metrics"])
@@ -196,6 +204,20 @@ class System:
                     # gone is not required to sweep: the statement names "access to another instance")
                     self._sweep(impl, ref, except_alias=a)
                 viol += self._check_memory(impl, ref, k)
+            elif k in ("refused_begin", "unauth"):
+                a = op[1]
+                e = ref.inst[a]
+                iid = impl.ids[a]
+                if k == "refused_begin":
+                    r = c.post("/%s/begin-session" % iid, json={})
+                elif op[2] == "keep-alive":
+                    r = c.post("/%s/keep-alive" % iid, headers={"Authorization": "Bearer wrong"})
+                else:
+                    r = c.get("/%s/session-results" % iid, headers={"Authorization": "Bearer wrong"})
+                if r.status_code < 400:
+                    viol.append(("refusal-expected/%s" % k, "%s -> %d" % (op, r.status_code)))
+                # the reference does nothing: a refused request is no access (and no required sweep trigger)
+                viol += self._check_memory(impl, ref, k)
             elif k == "advance":
                 e = ref.inst[op[1]]
                 d = {"eps": EPS, "half": e["T"] / 2, "T-eps": e["T"] - EPS, "T": e["T"], "T+eps": e["T"] + EPS}[op[2]]
@@ -276,7 +298,17 @@ class System:
                           impl.app._instance_manager._instances[impl.ids[a]]["instance"].session_state is not None))
         from mc import explore
         mgr = impl.app._instance_manager
-        hidden = (explore.hidden_shape(mgr, skip=("_instances",), scalars=True, now=impl.clock.now),
+        def own(a):
+            # what the implementation itself holds for the instance: its last-access time (relative to now) and its timeout
+            rec = mgr._instances.get(impl.ids[a])
+            if rec is None:
+                return None
+            try:
+                T = datetime.timedelta(**rec["timeout"])
+                return (min(impl.clock.now - rec["time"], T), T)       # (once expired, how long ago does not matter)
+            except Exception:
+                return (repr(rec.get("time")), repr(rec.get("timeout")))
+        hidden = (tuple(own(a) for a in sorted(ref.inst)), explore.hidden_shape(mgr, skip=("_instances",), scalars=True, now=impl.clock.now),
                   tuple(tuple(sorted(k for k in mgr._instances.get(impl.ids[a], {}) if k not in ("instance", "time", "timeout"))) for a in sorted(ref.inst)))
         return (ref.n, tuple(items), hidden)
 
@@ -285,9 +317,9 @@ _systems = {}
 
 
 def get_system(cfg):
-    key = (cfg[0], tuple(cfg[1]), bool(cfg[2]) if len(cfg) > 2 else False)
+    key = (cfg[0], tuple(cfg[1]), bool(cfg[2]) if len(cfg) > 2 else False, bool(cfg[3]) if len(cfg) > 3 else False)
     if key not in _systems:
-        _systems[key] = System(cfg[0], list(cfg[1]), key[2])
+        _systems[key] = System(cfg[0], list(cfg[1]), key[2], key[3])
     return _systems[key]
 
 
@@ -365,8 +397,9 @@ def configs(tier):
         out.append((False, p))
     out.append((True, pairs[0]))
     # the same search from a non-initial state: both instances exist already (the depth goes into what happens to them afterwards)
-    out.append((True, pairs[0], True))
+    out.append((True, ("seconds", "day+hour"), True))
     out.append((False, pairs[0], True))
+    out.append((False, ("seconds", "minutes"), True, True))     # a server that demands a token
     if tier == "thorough":
         out.append((True, pairs[1]))
         out.append((True, pairs[1], True))
@@ -383,19 +416,20 @@ def run(ctx):
         d = depth if len(cfg[1]) < 3 else depth - 1
         if len(cfg) > 2 and cfg[2] and not cfg[0]:
             d = depth - 1
+        tok = len(cfg) > 3 and cfg[3]
         res = bfs(cfg, d)
         tot_s += res.states
         tot_t += res.transitions
         pre = len(cfg) > 2 and cfg[2]
-        per["%s/%s%s" % ("adapter" if cfg[0] else "memory", "+".join(cfg[1]), "/both-created-root" if pre else "")] = {"states": res.states, "transitions": res.transitions, "depth": d}
-        samples += [{"config": [cfg[0], list(cfg[1]), bool(pre)], "history": h} for h in res.samples[:1]]
+        per["%s/%s%s%s" % ("adapter" if cfg[0] else "memory", "+".join(cfg[1]), "/both-created-root" if pre else "", "/token" if tok else "")] = {"states": res.states, "transitions": res.transitions, "depth": d}
+        samples += [{"config": [cfg[0], list(cfg[1]), bool(pre), bool(tok)], "history": h} for h in res.samples[:1]]
         for sig, hist, detail in res.violations:
-            ctx.violation("C17/%s/%s%s" % (sig, "adapter" if cfg[0] else "memory", "/both-created-root" if pre else ""), {"config": [cfg[0], list(cfg[1]), bool(pre)], "history": hist}, detail)
+            ctx.violation("C17/%s/%s%s%s" % (sig, "adapter" if cfg[0] else "memory", "/both-created-root" if pre else "", "/token" if tok else ""), {"config": [cfg[0], list(cfg[1]), bool(pre), bool(tok)], "history": hist}, detail)
     if ctx.tier == "thorough":
         realtime_crosscheck(ctx)
     ctx.finish({
         "states": tot_s, "transitions": tot_t, "traces_validated_against_impl": tot_t, "samples": samples, "per_config": per,
-        "rule": "BFS over create(timeout unit)/begin-session/session-results/keep-alive/metrics/full-metrics/save-state (with an adapter)/advance(eps, T/2, T-eps, T, T+eps per instance) under a "
+        "rule": "BFS over create(timeout unit)/begin-session/session-results/keep-alive/metrics/full-metrics/save-state (with an adapter)/requests with a wrong token (on a server that demands one)/advance(eps, T/2, T-eps, T, T+eps per instance) under a "
                 "virtual clock; canonical state = remaining life per instance (0 once expired) + presence flags; every timeout unit appears in a configuration; "
                 "two configurations are searched again from the state in which both instances exist",
     }, assumptions=["the server reads time only through datetime.datetime.now() of its own modules (replaced by the harness clock)",
@@ -447,7 +481,8 @@ def realtime_crosscheck(ctx):
 def replay(case):
     if "realtime" in case:
         return None
-    system = get_system((case["config"][0], tuple(case["config"][1]), bool(case["config"][2]) if len(case["config"]) > 2 else False))
+    cc = case["config"]
+    system = get_system((cc[0], tuple(cc[1]), bool(cc[2]) if len(cc) > 2 else False, bool(cc[3]) if len(cc) > 3 else False))
     impl, ref = system.new()
     try:
         for op in case["history"]:
